@@ -439,3 +439,26 @@ def c09_typed_dtypes(ctx, dim, dtype, form):
     ctx.ensure(f"inverse on {dtype} points == inverse on the same points as float64", eq(goti, refi))
     back = np.asarray(T.inverse(T(X if form != "single" else X[0])), dtype=float)
     ctx.ensure("inverse(call(x)) == x", eq(back, Xi.astype(float) if form != "single" else Xi[0].astype(float)))
+
+
+@ob("C09.inverse_small_angles", kind="B", cases=product_cases(dim=(2, 3), scale=(1e-2, 1e-3, 1e-4, 1e-6)), funcs=FUNCS, samples=(4, 12), tol=1e-9,
+    cite="For every parameter choice in two and three dimensions an affine map followed by its inverse (in either order) returns the original points",
+    note="bounded companion of C09.inverse near the identity rotation: the proof idealises np.isclose guards to equality (assumption A8), so a shortcut taken for 'almost no rotation' is "
+         "visible only to concrete runs with small non-zero angles (after seed C09_f)")
+def c09_inverse_small_angles(ctx, dim, scale):
+    T = darsia.AffineTransformation(dim)
+    t = ctx.reals("t", dim, sample=(-5.0, 5.0))
+    s = ctx.real("s", pos=True, sample=(0.5, 2.0))
+    nrot = 1 if dim == 2 else 3
+    th = [scale * ctx.real(f"th{i}", sample=(-4.0, 4.0), nonzero=True) for i in range(nrot)]
+    T.set_parameters(np.array(t), s, np.array(th))
+    X = 100.0 * rows(ctx, "x", 3, dim)
+    ctx.ensure("inverse(call(x)) == x", eq(T.inverse_array(T.call_array(X)), X))
+    ctx.ensure("call(inverse(x)) == x", eq(T.call_array(T.inverse_array(X)), X))
+    R, Ri = T.rotation, T.rotation_inv
+    ctx.ensure("rotation_inv . rotation == identity", eq(Ri.dot(R), np.eye(dim)))
+    # the map really rotates: compare with the first-order rotation about the origin (2-D)
+    if dim == 2:
+        Y = T.call_array(X)
+        lin = s * (X + th[0] * np.stack([-X[:, 1], X[:, 0]], axis=1)) + np.array(t)[None, :]
+        ctx.ensure("small rotation acts to first order as x + theta * (-y, x)", bool(np.allclose(Y, lin, rtol=0, atol=2 * s * (th[0] ** 2) * 600 + 1e-9)))
